@@ -89,6 +89,74 @@ def cook_publication_order(spec):
 
 
 # ---------------------------------------------------------------------------
+# C16: a re-cooked template keeps nothing of the previous version (macros are the `_render_*`
+# attributes cook() publishes on the instance)
+# ---------------------------------------------------------------------------
+COOK_DEMO = r'''
+import json, sys
+sys.path.insert(0, sys.argv[1] + '/src')
+from chameleon.zpt.template import PageTemplate
+t = PageTemplate('<a metal:define-macro="foo">F1</a><b metal:define-macro="bar">B1</b>')
+before = sorted(t.macros.names)
+t.cook('<b metal:define-macro="bar">B2</b>')
+after = sorted(t.macros.names)
+try:
+    stale = t.macros['foo'].include is not None
+except KeyError:
+    stale = False
+print(json.dumps({'macros_v1': before, 'macros_after_recook_with_only_bar': after, 'foo_still_served': stale}))
+'''
+
+
+def cook_drops_stale(spec):
+    import json
+    import os
+    import subprocess
+    from .replay import PY, REPO
+    t0 = time.time()
+    fn = find(parse('template.py'), 'BaseTemplate.cook')
+    removes = []
+    for n in ast.walk(fn):
+        # delattr(self, ...) / del self.__dict__[...] / self.__dict__.pop(...) / vars(self).pop(...)
+        if isinstance(n, ast.Call) and isinstance(n.func, ast.Name) and n.func.id == 'delattr' and n.args \
+                and isinstance(n.args[0], ast.Name) and n.args[0].id == 'self':
+            removes.append(n.lineno)
+        if isinstance(n, ast.Delete):
+            for t in n.targets:
+                if isinstance(t, ast.Subscript) and 'self' in ast.unparse(t.value):
+                    removes.append(n.lineno)
+        if isinstance(n, ast.Call) and isinstance(n.func, ast.Attribute) and n.func.attr in ('pop', 'clear') \
+                and 'self' in ast.unparse(n.func.value) and ('__dict__' in ast.unparse(n.func.value)
+                                                              or 'vars(' in ast.unparse(n.func.value)):
+            removes.append(n.lineno)
+    mentions_prefix = any(isinstance(n, ast.Constant) and isinstance(n.value, str) and n.value.startswith('_render')
+                          for n in ast.walk(fn))
+    ok = bool(removes) and mentions_prefix
+    o = ob('cook.drops_stale_functions', ok,
+           'BaseTemplate.cook removes the render functions (`_render_*`, i.e. the macros) of the previous '
+           'compilation that the new one does not define: "macros ... all from that version and nothing '
+           'from earlier ones"',
+           {'removal_statements_at_lines': removes, 'mentions__render_prefix': mentions_prefix,
+            'function_line': fn.lineno})
+    if not ok:
+        env = dict(os.environ)
+        env.pop('PYTHONPATH', None)
+        try:
+            p = subprocess.run([PY, '-c', COOK_DEMO, REPO], capture_output=True, text=True, timeout=120, env=env)
+            line = [ln for ln in p.stdout.strip().split('\n') if ln.startswith('{')]
+            d = json.loads(line[-1]) if line else None
+        except Exception:
+            d = None
+        if d and (d['foo_still_served'] or 'foo' in d['macros_after_recook_with_only_bar']):
+            o['confirmed'] = True
+            o['witness'] = {'inputs': {'history': "cook(v1 defining macros foo, bar); cook(v2 defining only bar)"},
+                            'detail': json.dumps(d)}
+    return {'unit': 'frames.cook_drops_stale', 'function': 'template.py::BaseTemplate.cook',
+            'obligations': [o], 'wall': time.time() - t0,
+            'assumptions': ['macros are exactly the `_render_*` instance attributes (Macros.__getitem__ / names)']}
+
+
+# ---------------------------------------------------------------------------
 # C14: render path writes nothing; per-render state is fresh; no shared class-level state
 # ---------------------------------------------------------------------------
 MUTATORS = ('append', 'pop', 'add', 'update', 'insert', 'extend', 'clear', 'remove', 'setdefault',
